@@ -107,6 +107,7 @@ class _FuncTaint:
 
         self.flow = Flow(func.node, resolver=self.res, events=events).run()
         self._busy: Set[Tuple[str, int]] = set()
+        self._eff: Dict[int, Set[Tuple[str, bool]]] = {}
 
     def build_env(self):
         pass
@@ -254,7 +255,12 @@ class _FuncTaint:
         gs = self.flow.guards_at(site)
         if gs is None:
             return D(frozenset(), None, d.origin)  # unreachable
-        gs = set(gs) | self.init_guards  # facts established by the caller about fields of a parameter
+        # plus what is known from where the locals tested on the way can have got their value (sa/provenance.py)
+        ck = id(site)
+        if ck not in self._eff:
+            from .provenance import effective_guards
+            self._eff[ck] = effective_guards(self.flow, self.res, self.func.node, site)
+        gs = set(self._eff[ck]) | self.init_guards  # facts established by the caller about fields of a parameter
         subj = self.res.text(e)
         raw = ast.unparse(e)
         types = set(d.types)
@@ -378,7 +384,8 @@ class _FuncTaint:
                     params = [a.arg for a in callee.node.args.args]
                     bound: Dict[str, D] = {}
                     carry: Set[Tuple[str, bool]] = set()
-                    here = (self.flow.guards_at(n) or set()) | self.init_guards
+                    from .provenance import effective_guards
+                    here = effective_guards(self.flow, self.res, self.func.node, n) | self.init_guards
                     for pn, a in zip(params, n.args):
                         d = self.desc(a, n)
                         if d is not None and d.types:
